@@ -213,6 +213,46 @@ PROPS = {
         assumptions=['list.sort is a stable sort', 'tracks hold valid messages with non-negative integer delta times'],
         trusted_base=[],
     ),
+    'C13': dict(
+        level='proof',
+        text='MidiFile.__iter__ is proved (loop invariant with ghost output, merged track of ANY length) to yield, for each merged '
+             'message, a copy whose time is delta x (tempo in force x 1e-6 / ticks_per_beat) - the tempo in force being 500000 until a '
+             'set_tempo and changing only AFTER the set_tempo message itself - and 0 for a zero delta; length is proved to be the sum of '
+             'those times over exactly that sequence; type 2 files refuse both. play(): loop invariant input_time == cumulative '
+             'time (independent of the clock: no drift); per iteration the clock is read once, sleep is called with exactly '
+             'input_time - elapsed when positive and not otherwise, the message is yielded only when clock >= start + input_time, '
+             'meta messages are withheld unless requested. Floats are treated as reals.',
+        note='trusted: pyvc, z3/cvc5; floats as mathematical reals (the constant 1e-6 is the exact value of the double); '
+             'ASSUMED clock/sleep contract: now() never goes backwards and sleep(d) advances it by >= d; merge_tracks is used through '
+             'its contract (C12); IEEE rounding of tick2second/second2tick only by a bounded grid',
+        clauses=[
+            ['__iter__: seconds follow the tempo map (tempo applies to deltas after the set_tempo)', 'PA (reals)'],
+            ['length == cumulative time; type 2 refuses iteration (TypeError) and length (ValueError)', 'PA (reals)'],
+            ['play: no drift, exact sleep, never early, meta filter', 'PA (reals, clock contract)'],
+            ['second2tick(tick2second(t)) == t over the reals', 'PA'],
+            ['second2tick(tick2second(t)) == t in IEEE arithmetic', 'B'],
+        ],
+        assumptions=['floats are reals (no rounding)', 'clock is monotone, sleep(d) advances it by at least d'],
+        trusted_base=[],
+    ),
+    'C16': dict(
+        level='proof',
+        text='every observer (merged_track, __iter__, length, play, _save) is verified from a state whose hidden cache field holds '
+             'ARBITRARY junk - the only thing any history of earlier observations and edits can leave behind - and is proved to '
+             '(a) return the contract result for the CURRENT tracks/type/ticks_per_beat and (b) read no attribute of the file '
+             'outside its contents (type, ticks_per_beat, charset, tracks, ...). Hence results are a function of the current '
+             'contents only, i.e. equal to those of a freshly built file with the same contents.',
+        note='trusted: pyvc, z3/cvc5; the read-set is taken from the interpreter log of attribute reads on the MidiFile '
+             'object; edits through the tracks list and the messages are ordinary Python mutations of the contents themselves; a '
+             'bounded stand-in replays random edit/observe histories on the real code',
+        clauses=[
+            ['merged_track merges the current tracks, never a stale value', 'P'],
+            ['__iter__/length/play/_save read only current contents and are specified as functions of them', 'P'],
+            ['random edit/observe histories vs freshly built files', 'B'],
+        ],
+        assumptions=[],
+        trusted_base=[],
+    ),
     'C02': dict(
         level='proof',
         text='Message.from_bytes / decode_message are verified against the MIDI 1.0 well-formedness predicate for integer '
@@ -233,5 +273,4 @@ PROPS = {
 }
 
 NOT_APPLICABLE = {pid: _PENDING for pid in
-                  ['C07', 'C08', 'C10', 'C11', 'C13',
-                   'C16', 'C18', 'C19', 'C20']}
+                  ['C07', 'C08', 'C10', 'C11', 'C18', 'C19', 'C20']}
